@@ -66,6 +66,7 @@ def run(prog, chk):
                                                     "KSI_Policy_clone", "KSI_DataHash_clone", "KSI_TLV_clone"]) < 4:
         raise AnalysisBroken("C11.clone: fewer than 4 field-by-field clone functions recognised")
     _run(prog, chk)
+    dump_closure_table(prog, chk)
 
 
 def _run(prog, chk):
@@ -213,3 +214,75 @@ def _run(prog, chk):
         if nb:
             chk.ob("C11.log", fn.name, not bad, "%d branch conditions, none reads the log level / logger or tests the result of a logging call" % nb +
                    ("; offending: %s" % bad if bad else ""), loc=fn.loc(), fn=fn, nontrivial=False)
+
+
+def dump_closure_table(prog, chk):
+    """What the library does only when a log line is wanted - the logging entry points of log.c and the *_toString dumpers - changes no
+    signature / TLV object, not even its representation: otherwise what is serialised later depends on the log level."""
+    chk.rule("C11.dump", "logging and debug dumps (log.c, *_toString) reach no mutator and write no field of an existing signature / TLV object", floor=3)
+    roots = set()
+    for fn in prog.all_functions():
+        if fn.unit == "log.c" or re.search(r"_toString$", fn.name) or fn.name in ("stringify",):
+            roots.add(fn.name)
+    if len(roots) < 15 or "KSI_LOG_logTlv" not in roots or "KSI_TLV_toString" not in roots:
+        raise AnalysisBroken("C11.dump: logging roots not recognised (%d found)" % len(roots))
+    seen = set(roots)
+    parent = {}
+    work = sorted(roots)
+    while work:
+        f = work.pop()
+        for fn in prog.functions.get(f, []):
+            for b, i, n in fn.calls():
+                c = n.get("fn")
+                if c and not n.get("macro") and c not in seen:
+                    seen.add(c)
+                    parent[c] = f
+                    work.append(c)
+
+    def chain(c):
+        out = [c]
+        while c in parent and len(out) < 8:
+            c = parent[c]
+            out.append(c)
+        return " <- ".join(out)
+    LAZY = re.compile(r"^(encodeAsNestedTlvs|encodeAsRaw|convertToNested|KSI_TLV_getNestedList|KSI_TlvElement_detach)$")
+    bad = [chain(c) for c in sorted(seen) if MUTATORS.match(c) or LAZY.match(c)]
+    chk.ob("C11.dump", "closure:mutators", not bad, "%d functions are reachable from %d logging / dump entry points; none edits or re-represents a TLV tree%s"
+           % (len(seen), len(roots), "; reachable: %s" % bad[:4] if bad else ""), loc="src/ksi/log.c")
+    writes = {}
+    for f in sorted(seen):
+        for fn in prog.functions.get(f, []):
+            if re.search(r"(_free|_ref|_new)$", fn.name):
+                continue
+            for b, i, n in fn.nodes():
+                l = None
+                if n.get("k") == "asg":
+                    l = strip(n["l"])
+                elif n.get("k") == "un" and n["op"] in ("post++", "pre++", "post--", "pre--"):
+                    l = strip(n["e"])
+                if not isinstance(l, dict) or l.get("k") != "mem" or not SIG_RECORDS.match(l.get("r", "")):
+                    continue
+                pv = provenance(fn, b, i, l["b"])
+                if "param:" in pv and "KSI_malloc" not in pv and "_new(" not in pv.split("param:")[0]:
+                    writes.setdefault((fn.name, l["r"], l["f"]), fn.loc(fn.elem_line(b, i)))
+    chk.ob("C11.dump", "closure:writes", not writes, "no function reachable from logging writes a field of an existing signature / chain / TLV object%s"
+           % ("; writes: %s" % ["%s %s.%s (%s)" % (k[0], k[1], k[2], chain(k[0])) for k in sorted(writes)][:4] if writes else ""), loc="src/ksi/log.c")
+    # casts that drop const from a TLV handed to a dumper (the way a mutator gets hold of a `const KSI_TLV *`)
+    n_const = 0
+    bad = []
+    for f in sorted(roots):
+        for fn in prog.functions.get(f, []):
+            cps = {p["n"] for p in fn.params if re.search(r"\bconst\b.*\*", p.get("t") or "") and re.search(r"KSI_(TLV|TlvElement|Signature)\b", p.get("t") or "")}
+            if not cps:
+                continue
+            n_const += 1
+            for b, i, n in fn.calls():
+                callee = n.get("fn")
+                proto = prog.protos.get(callee) if callee else None
+                for k, a in enumerate(n["a"]):
+                    if is_var(strip(a)) and strip(a)["n"] in cps and proto and k < len(proto.get("params", [])):
+                        pt = proto["params"][k].get("t") or ""
+                        if "*" in pt and "const" not in pt:
+                            bad.append("%s passes its const %s to %s as %s (line %s)" % (fn.name, strip(a)["n"], callee, pt, fn.elem_line(b, i)))
+    chk.ob("C11.dump", "const-dropped", not bad, "%d dumpers take the object as pointer-to-const; none hands it to a callee that takes it non-const%s"
+           % (n_const, ": %s" % bad[:3] if bad else ""), loc="src/ksi/tlv.c")
